@@ -113,7 +113,8 @@ class C16(Check):
             "long; every sequence of 1..3 element kinds (P-256 / P-384 / secp256k1 certificate, attestation "
             "key, quote) chained below a valid certificate, each really signed by its parent; unknown and "
             "swapped element types, unknown and duplicate names, re-signed over- and "
-            "under-long SGX messages, other key encodings; (d) rule-built chains, cycles, rho shapes, "
+            "under-long SGX messages, every hex / base64 field in the other spellings the decoders accept "
+            "and every key field in the other point encodings (genuine: reference verdicts required); (d) rule-built chains, cycles, rho shapes, "
             "stars of 12 elements; (e) certificates genuine by construction (every version-1 path x tweak "
             "patterns x target lists, version-2 chains of depth 1..3 x auth data, each also with one "
             "spoiled signature; every graph document of (b) whose elements are all signed by elements or "
@@ -129,7 +130,8 @@ class C16(Check):
         "save; the longest legitimate call on 12 elements executes about 7.8*10^3) with a 30 s "
         "wall-clock alarm behind it; the first exhausted budget ends its case, the sixth ends the run",
         "roots of trust for validation: the generator's secp256k1 root key / root certificate with "
-        "the clock fixed inside every generated validity period",
+        "the clock fixed inside every generated validity period; the process time zone is UTC, UTC-3 "
+        "or UTC+5:30 in turn",
         "values are compared after save/load as (verdict, value, tweak); SGX quotes by their field dictionary",
     ]
     trusted_base = ["verif/gen/certs.py", "sys.settrace line counting", "verif/certharness.py"]
@@ -426,17 +428,22 @@ class C16(Check):
             for auth in (b"\x00", bytes(1000)):
                 self.evaluate(with_(w.att_element("attestation", leaf, leaf, auth=auth), targets),
                               "special:sgx_attestation_key:auth-len", stats, vs)
-            # hex spelling variants (same bytes)
-            for nm, fld in (("quote", "message"), ("quote", "signature"), ("quote", "custom_data"),
-                            ("attestation", "message"), ("attestation", "key"), ("attestation", "auth_data"),
-                            ("attestation", "signature")):
-                for spell in (str.upper, lambda h: " ".join(h[i:i + 2] for i in range(0, len(h), 2)),
-                              lambda h: h + " "):
-                    d = G.clone(base)
-                    e = G.element_of(d, nm)
-                    e[fld] = spell(e[fld])
-                    d["targets"] = list(targets)
-                    self.evaluate(json.dumps(d), "special:hex-spelling", stats, vs)
+            # every hex field in the other spellings the loader accepts for the same bytes
+            for e0 in base["elements"]:
+                if e0["type"] == "x509_pem":
+                    continue
+                for fld in ("message", "custom_data", "key", "auth_data", "signature"):
+                    if fld not in e0:
+                        continue
+                    for sp, fn in G.HEX_SPELLINGS.items():
+                        d = G.clone(base)
+                        G.element_of(d, e0["name"])[fld] = fn(e0[fld])
+                        d["targets"] = list(targets)
+                        self.genuine_eval(d, "special:v2:hex-spelling", stats, vs)
+            # the attestation key in every point encoding the loader accepts
+            for fmt in ("raw", "compressed", "hybrid"):
+                d = json.loads(with_(w.att_element("attestation", leaf, leaf, key_fmt=fmt), targets))
+                self.genuine_eval(d, "special:v2:key-encoding", stats, vs)
         # base64 spellings of certificates
         for nm in ("quoting_enclave", "platform_ca"):
             for spell in (lambda b: "\n".join(b[i:i + 64] for i in range(0, len(b), 64)),
@@ -452,17 +459,59 @@ class C16(Check):
                     e["message"] = spell(e["message"])
                     d["targets"] = list(targets)
                     self.evaluate(json.dumps(d), "special:base64-spelling", stats, vs)
+            for sp, fn in G.B64_SPELLINGS.items():
+                d = G.clone(base)
+                e = G.element_of(d, nm)
+                e["message"] = fn(e["message"])
+                self.genuine_eval(d, "special:v2:base64-spelling", stats, vs)
         # version 1 spellings
         b1 = self.base_doc(1)
         for i, e in enumerate(b1["elements"]):
             for fld in ("message", "signature", "tweak"):
                 if fld not in e:
                     continue
-                for spell in (str.upper, lambda h: " ".join(h[i:i + 2] for i in range(0, len(h), 2)),
-                              lambda h: h + " ", lambda h: "0x" + h, lambda h: h + "0"):
+                for spell in (lambda h: "0x" + h, lambda h: h + "0", lambda h: h[:1] + " " + h[1:]):
                     d = G.clone(b1)
                     d["elements"][i][fld] = spell(e[fld])
                     self.evaluate(json.dumps(d), "special:hex-spelling", stats, vs)
+                for sp, fn in G.HEX_SPELLINGS.items():
+                    for targets in (b1["targets"], [e["name"]]):
+                        d = G.clone(b1)
+                        d["elements"][i][fld] = fn(e[fld])
+                        d["targets"] = list(targets)
+                        self.genuine_eval(d, "special:v1:hex-spelling", stats, vs)
+        # version 1: the embedded certifier keys in the other encodings (parent re-signed)
+        w1 = self.w1
+        for parent, child in (("attestation", "ui"), ("device", "attestation")):
+            for enc in ("compressed", "hybrid"):
+                d = G.clone(b1)
+                pe = G.element_of(d, parent)
+                pm = bytes.fromhex(pe["message"])
+                pub = w1.pub(parent)
+                key = w1.pub(parent, compressed=True) if enc == "compressed" else G.k1_hybrid(pub)
+                nm = pm[:-65] + key
+                pe["message"] = nm.hex()
+                pe["signature"] = w1.sign(pe["signed_by"], bytes.fromhex(pe["tweak"]) if "tweak" in pe else None,
+                                          nm).hex()
+                d["targets"] = [child, parent]
+                self.genuine_eval(d, "special:v1:key-encoding", stats, vs)
+
+    def genuine_eval(self, d, label, stats, vs):
+        """d is well formed and every target has a path: it must load, and give the verdicts and values
+        the reference computes (whatever they are; None where the statement defines no value)."""
+        from ..refs import certref as R
+        if d["version"] == 1:
+            if getattr(self, "k1ver", None) is None:
+                self.k1ver = R.K1Verifier()
+            exp = R.v1_validate(d, self.w1.pub("root"), self.k1ver)
+            want = {t: ((True, v[1], v[2]) if v[0] == R.OK else (False, v[1]) if v[0] == R.FAIL else None)
+                    for t, v in exp.items()}
+        else:
+            exp = R.v2_validate(d, R.v2_root_element(self.root2), G.T0)
+            want = {t: ((True, v[1], None) if v[0] == R.OK else (False, v[1]) if v[0] == R.FAIL else None)
+                    for t, v in exp.items()}
+        self.evaluate(json.dumps(d), label, stats, vs, must_load=True, expect=want)
+        return exp
 
     # ---- (e) genuine certificates load through the tools' entry point, with the reference's verdicts
     def run_genuine(self, case, stats, vs):
@@ -625,7 +674,8 @@ class C16(Check):
             root = self.impl.root_v1(self.root1)
             out = self.impl.budgeted(lambda: cert.validate_and_get_values(root))
         else:
-            with self.impl.clock(G.T0):
+            self.zone_turn = (getattr(self, "zone_turn", 0) + 1) % 3
+            with self.impl.clock(G.T0, (None, "VRF3", "VRF-5:30")[self.zone_turn]):
                 root = self.impl.root_v2(self.root2)
                 out = self.impl.budgeted(lambda: cert.validate_and_get_values(root))
         if out[0] == "ok":
